@@ -38,7 +38,9 @@ RULE = ("generated: paired runs (without / with transforms) of the real code on 
         "transform (scales+offsets / scales / offsets / VariableScaler(None, None) / none; one scale for all variables given as a "
         "1-element array) and the function transforms (none / objective scaler / constraint scaler / both) are chosen "
         "independently; uniform settings written as scalars in the configuration; the scaler object validates another "
-        "configuration with other linear constraints first (30 %). Levels: EnsembleEvaluator.calculate, evaluator step, optimizer "
+        "configuration with other linear constraints (three other rows, or the same rows scaled differently) first (30 %); "
+        "every case also runs an evaluator step whose evaluation fails (no function values) without and with the "
+        "transforms and compares the constraint information of that result. Levels: EnsembleEvaluator.calculate, evaluator step, optimizer "
         "step and BasicOptimizer (configuration dict, or EnOptConfig validated with the transforms) driven by a scripted optimizer "
         "plug-in. Every run issues a sequence of evaluator calls: function+gradient in one call or function then gradient-only "
         "(cached function) at the start vector, then further single function requests (1-D or 1-row 2-D), 2-D batches of 2-3 "
@@ -48,7 +50,7 @@ RULE = ("generated: paired runs (without / with transforms) of the real code on 
 ASSUMPTIONS = [
     "scales are positive, offsets arbitrary; linear constraint rows are non-zero (property quantifier)",
     "objective / non-linear constraint transforms are the diagonal positive scalers users write (tests/test_optimizer.py); the base classes are abstract",
-    "the user's evaluator is a function of the user-domain variables it receives (here: affine + quadratic with dyadic coefficients); no evaluation fails (NaN) in the paired runs -- results without function values under transforms are exercised by C13's end-to-end stream",
+    "the user's evaluator is a function of the user-domain variables it receives (here: affine + quadratic with dyadic coefficients); apart from the dedicated failing-evaluation probe (all realizations NaN, no function values) no evaluation fails in the paired runs",
     "lower bounds are never +inf and upper bounds never -inf in perturbation cases; absent scales/offsets are represented as 1/0 (exactly neutral also in floating point)",
     "function estimators are positively homogeneous (mean and stddev are); the paired runs use the default mean estimator without realization filters",
     "weighted objective, gradients and the choice a tracker makes between results (judged in the optimizer domain by design) are not compared between the two runs",
@@ -196,7 +198,8 @@ def gen_case(rng, level=None, full=False, explicit=False, rich=False, basic_cfg=
     case = {"level": level, "mode": mode, "x0": x0, "lb": lb, "ub": ub, "mag": mag, "ptype": ptype,
             "btype": btype, "samples": samples, "weights": weights, "obj_w": obj_w, "fun": fun, "lin": lin, "nl": nl, "tr": tr,
             "points": points, "explicit": None, "ops": _gen_ops(rng, level, V, mode, rich), "compact": compact,
-            "reuse": vm != "-" and rng.random() < 0.3, "basic_cfg": basic_cfg,
+            "reuse": vm != "-" and rng.random() < 0.3, "decoy": rng.choice(["rows3", "same-rows", "same-rows"]),
+            "basic_cfg": basic_cfg,
             "_tag": "full" if full else ("rich" if rich else "dyadic")}
     if explicit and level in ("evalstep", "optstep"):
         case["explicit"] = [_dy(rng, -2, 2) for _ in range(V)]
@@ -283,13 +286,49 @@ def _config_dict(case):
     return d
 
 
+def _failing_probe(case, transforms):
+    """An evaluator step at the start vector whose evaluation fails for every realization (no function values): the
+    constraint info of the delivered result(s): (user domain, optimizer domain)."""
+    import numpy as np
+    from ropt.enums import EventType
+    from ropt.evaluator import EvaluatorResult
+    from ropt.plan import OptimizerContext, Plan
+    K = len(case["obj_w"])
+    C = 0 if case["nl"] is None else len(case["nl"]["lb"])
+    got = {}
+
+    def evaluator(variables, context):
+        n = variables.shape[0]
+        return EvaluatorResult(objectives=np.full((n, K), np.nan), constraints=np.full((n, C), np.nan) if C else None)
+
+    def observer(event):
+        res = event.data["results"]
+        tr = event.data.get("transformed_results", res)
+        got["user"], got["opt"] = res[0], tr[0]
+
+    install, PluginManager = _plugins(case, lambda p: p)
+    context = OptimizerContext(evaluator=evaluator, plugin_manager=install(PluginManager()))
+    context.add_observer(EventType.FINISHED_EVALUATION, observer)
+    plan = Plan(context)
+    step = plan.add_step("evaluator")
+    plan.run_step(step, config=_config_dict(case), transforms=transforms)
+    return {"user": _info(got["user"].constraint_info), "opt": _info(got["opt"].constraint_info),
+            "has_functions": got["user"].functions is not None}
+
+
 def _decoy_dict(case):
     """Another configuration of the same size with different linear constraints: validated with the same transforms
     object before the run under test (a scaler object may serve several configurations one after the other)."""
     V = len(case["x0"])
     d = _config_dict(case)
-    d["linear_constraints"] = {"coefficients": [[3.0] * V, [0.5] + [0.0] * (V - 1), [-8.0] + [1.0] * (V - 1)],
-                               "lower_bounds": [-INF, -INF, -1.0], "upper_bounds": [1.0, 2.0, INF]}
+    if case["lin"] is not None and case.get("decoy", "rows3") == "same-rows":
+        # same number of rows, every row scaled differently
+        lin = case["lin"]
+        d["linear_constraints"] = {"coefficients": [[a * (3.0 + i) for a in r] for i, r in enumerate(lin["A"])],
+                                   "lower_bounds": list(lin["lb"]), "upper_bounds": list(lin["ub"])}
+    else:
+        d["linear_constraints"] = {"coefficients": [[3.0] * V, [0.5] + [0.0] * (V - 1), [-8.0] + [1.0] * (V - 1)],
+                                   "lower_bounds": [-INF, -INF, -1.0], "upper_bounds": [1.0, 2.0, INF]}
     return d
 
 
@@ -482,7 +521,10 @@ def run_impl(case):
         pts.append({"y": _fl(y), "back": _fl(back)})
     # the equation scaling is state of the scaler object: only meaningful for a configuration with linear constraints
     eq = None if var is None or case["lin"] is None else getattr(var, "_equation_scaling", None)
-    return {"plain": plain, "scaled": scaled, "points": pts, "eq": _fl(eq)}
+    fp, fs = _failing_probe(case, None), _failing_probe(case, transforms)
+    return {"plain": plain, "scaled": scaled, "points": pts, "eq": _fl(eq),
+            "fail": {"plain": fp["user"], "scaled": fs["user"], "scaled_opt": fs["opt"],
+                     "has_functions": fp["has_functions"] or fs["has_functions"]}}
 
 
 # ---- Gallina printing -----------------------------------------------------------------
@@ -556,6 +598,13 @@ def _calls(case):
     return [(kind[op["k"]], [p0] if op["init"] else op["pts"]) for op in case["ops"]]
 
 
+def _fail_term(obs):
+    f = obs.get("fail")
+    if f is None:
+        return "None"
+    return f"(Some ({_info_term(f['plain'])}, {_info_term(f['scaled'])}, {_info_term(f['scaled_opt'])}))"
+
+
 def coq_case(case, obs):
     V = len(case["x0"])
     tr = case["tr"]
@@ -571,7 +620,7 @@ def coq_case(case, obs):
         cq.q(_scale(case, obs)), f"(codes_ok {pcodes} {bcodes})", user, _lin_term(case["lin"]), _nl_term(case["nl"]),
         cq.b(_has_var_transform(case)), cq.qs(ss), cq.qs(os_), cq.qs(fs), _opt(tr["nl_scales"], cq.qs),
         cq.nat(len(case["weights"])), _tens(case["samples"]), calls, _run_term(obs["plain"]), _run_term(obs["scaled"]),
-        cq.lst(_res_term(r) for r in obs["scaled"]["opt"]), _opt(obs["eq"], cq.qs), points]) + ")")
+        cq.lst(_res_term(r) for r in obs["scaled"]["opt"]), _opt(obs["eq"], cq.qs), points, _fail_term(obs)]) + ")")
 
 
 # ---- the property evaluated directly on the implementation's output -----------------------
@@ -658,6 +707,15 @@ def oracle(case, obs):
         got = [(r["type"], r["variables"]) for r in T["user"]]
         if len(got) != len(want) or any(g[0] != w[0] or not _same(g[1], [float(v) for v in w[1]], S) for g, w in zip(got, want)):
             return {"clause": "result_variables_are_user_points", "detail": {"expected": want, "reported": got}}
+    # a result without function values (failed evaluation): bound / linear differences and violations depend on the
+    # variables only and must be reported alike with and without transforms
+    f = obs.get("fail")
+    if f is not None:
+        if f["has_functions"]:
+            return {"clause": "failing_probe_has_functions", "detail": "the all-NaN evaluation produced function values"}
+        if not _same(f["plain"], f["scaled"], S):
+            return {"clause": "results_invariant", "detail": {"result": "failed evaluation (no function values)",
+                                                              "field": "info", "plain": f["plain"], "scaled": f["scaled"]}}
     margin = Fraction(S) / 10**6
     for p, o in zip(case["points"], obs["points"]):
         if not _same(o["back"], [float(v) for v in p], S):
